@@ -104,6 +104,12 @@ Definition is_rfc (pol : policy) : bool := match pol with QuotedRfc => true | _ 
 Definition dlm_nl_free (pol : policy) (dlm : str) : bool :=
   match pol with Monocolumn => true | _ => negb (CsvSpec.has_newline dlm) end.
 
+(* for whitespace (the delimiter is one space) and monocolumn it follows from good_dlm *)
+Lemma good_dlm_nl_free pol dlm : pol = Whitespace \/ pol = Monocolumn -> good_dlm pol dlm = true -> dlm_nl_free pol dlm = true.
+Proof.
+  intros [->| ->] G; [|reflexivity]. cbn [good_dlm] in G. apply dlm_is_space_iff in G. subst dlm. reflexivity.
+Qed.
+
 Definition written (fl : lang) (pol : policy) (dlm : str) (rows : list (list str)) : list str :=
   map (join_line_fl fl pol dlm) rows.
 
